@@ -27,6 +27,7 @@ type xformWalk struct {
 	stop  func(v ssa.Value) bool
 	all   bool // record cutting functions as well
 	local bool // do not leave the function through its parameters
+	fields bool // follow string fields of module structs to the values stored into them
 }
 
 func (w *xformWalk) walk(v ssa.Value, depth int) {
@@ -61,6 +62,15 @@ func (w *xformWalk) walk(v ssa.Value, depth int) {
 		switch a := x.X.(type) {
 		case *ssa.IndexAddr:
 			w.walk(a.X, depth)
+		case *ssa.FieldAddr:
+			if w.fields {
+				// a string field of a module struct: everything the module stores into that field
+				for _, st := range p.storesToField(fieldOfAddr(a)) {
+					w.walk(st.Val, depth+1)
+				}
+				// the struct may itself be an element of a list returned by a module function
+				w.walk(a.X, depth)
+			}
 		case *ssa.Alloc, *ssa.FreeVar:
 			for _, root := range p.cellRoots(a) {
 				for _, st := range p.cellStores(root) {
@@ -343,4 +353,77 @@ func sortedKeysOf[T any](m map[string]T) []string {
 	}
 	sort.Strings(ks)
 	return ks
+}
+
+// storesToField: every store into field f in the module (struct literals included), cached.
+func (p *Program) storesToField(f *types.Var) []*ssa.Store {
+	if p.fieldStoreCache == nil {
+		p.fieldStoreCache = map[*types.Var][]*ssa.Store{}
+		for _, fn := range p.SrcFunc {
+			eachInstr(fn, func(i ssa.Instruction) {
+				if st, ok := i.(*ssa.Store); ok {
+					if fa, ok := st.Addr.(*ssa.FieldAddr); ok {
+						p.fieldStoreCache[fieldOfAddr(fa)] = append(p.fieldStoreCache[fieldOfAddr(fa)], st)
+					}
+				}
+			})
+		}
+	}
+	return p.fieldStoreCache[f]
+}
+
+// Case folding agreement (C05.i). Where a token of Accept or Content-Type is compared for equality with a declared
+// media type, both operands were case-folded by the same functions, or neither was. Lower-casing the header's media
+// ranges while the declared Produces entries are compared as written makes a declared `application/vnd.Acme+json`
+// unselectable, and the writer answers with a lower-ranked type than the router admitted the request for.
+var foldingFuncs = map[string]bool{"strings.ToLower": true, "strings.ToUpper": true, "strings.Title": true, "strings.ToTitle": true}
+
+func ruleFoldingAgreement(c *Ctx) {
+	p := c.P
+	ta := p.tokenAnalysisCached()
+	n := 0
+	for _, fn := range p.requestPathFuncs() {
+		name := p.fname(fn)
+		eachInstr(fn, func(i ssa.Instruction) {
+			bo, ok := i.(*ssa.BinOp)
+			if !ok || (bo.Op != token.EQL && bo.Op != token.NEQ) || !isStringType(bo.X.Type()) {
+				return
+			}
+			if _, isC := constStr(bo.X); isC {
+				return
+			}
+			if _, isC := constStr(bo.Y); isC {
+				return
+			}
+			folds := func(v ssa.Value) (string, bool) {
+				w := &xformWalk{p: p, seen: map[ssa.Value]bool{}, found: map[string]bool{}, all: true, fields: true}
+				w.walk(v, 0)
+				var out []string
+				for k := range w.found {
+					if foldingFuncs[k] {
+						out = append(out, k)
+					}
+				}
+				sort.Strings(out)
+				hdr := false
+				for x := range w.seen {
+					if ta.val[x] != tokNone {
+						hdr = true
+					}
+				}
+				return strings.Join(out, ", "), hdr
+			}
+			a, ha := folds(bo.X)
+			b, hb := folds(bo.Y)
+			if !(ha || hb) || (ha && hb) {
+				return // not a comparison of a header token with a declared value
+			}
+			n++
+			c.check(a == b, name, "a header token and the declared value it is compared with are case-folded alike", p.ipos(i), "{"+a+"} on both sides",
+				"one operand went through {"+a+"}, the other through {"+b+"}: a declared media type with upper-case letters can never be equal to the folded header token, although the router (or the writer) admits it by another comparison")
+		})
+	}
+	if n == 0 {
+		c.undecided("-", "equalities between header tokens and declared values", "-", "none found on the request path")
+	}
 }
